@@ -248,6 +248,11 @@ func (h *fileHandler) upload(oid string, size int64, path string) (string, strin
 	if err != nil {
 		return oid, "", err
 	}
+	// There is no server to reject bad content here, so make sure that what
+	// goes into the remote's storage is the object it is named after.
+	if err := tools.VerifyFileHash(oid, path); err != nil {
+		return oid, "", err
+	}
 	return oid, "", lfs.LinkOrCopy(h.remoteConfig, path, dest)
 }
 
